@@ -455,6 +455,17 @@ Proof.
   unfold has_evidence. apply existsb_exists. exists src. split; [eapply supermajority_src; eauto|assumption].
 Qed.
 
+Definition bad_ck (n g : N) (s : state) : bool :=
+  existsb (fun c => negb (c_id c =? g) && is_jf (c_st c) && negb (has_evidence n c)) (cks s).
+
+Lemma bad_ck_refutes : forall n g s, bad_ck n g s = true -> ~ justified_needs_votes n g s.
+Proof.
+  intros n g s H. unfold bad_ck in H. apply existsb_exists in H. destruct H as (c & Hc & H).
+  apply andb_true_iff in H. destruct H as [H He]. apply andb_true_iff in H. destruct H as [Hg Hj].
+  apply negb_true_iff in Hg. apply N.eqb_neq in Hg. apply negb_true_iff in He.
+  now apply (no_evidence n g s c).
+Qed.
+
 (* the full statement, restarts included: every Restart names a checkpoint the node has stored as finalized *)
 Definition C17_full : Prop :=
   forall V n E local g evs, src_must_be_justified V = true ->
@@ -470,11 +481,7 @@ Definition wit_forged : list event :=
 Lemma restart_refuted_forged : ~ C17_full.
 Proof.
   intros H. destruct (H (mkvar true true) 4 4 0 0 wit_forged eq_refl eq_refl) as (HJ & _).
-  set (s := run (mkvar true true) 4 4 0 0 wit_forged) in *.
-  assert (Hs : exists c, In c (cks s) /\ c_id c = 4 /\ is_jf (c_st c) = true /\ has_evidence 4 c = false).
-  { vm_compute. eexists. split; [right; left; reflexivity|]. repeat split. }
-  destruct Hs as (c & Hc & Hid & Hj & He).
-  apply (no_evidence 4 0 s c Hc); auto. rewrite Hid. discriminate.
+  revert HJ. apply bad_ck_refutes. vm_compute. reflexivity.
 Qed.
 
 (* the pinned code (a sup link justifies from every source that is not Finalized): validators 1,2,3 vote 4 -> 8
@@ -485,11 +492,7 @@ Definition wit_unjustified_source : list event :=
 Lemma pinned_refuted_unjustified_source :
   ~ justified_needs_votes 4 0 (run (mkvar false true) 4 4 0 0 wit_unjustified_source).
 Proof.
-  set (s := run (mkvar false true) 4 4 0 0 wit_unjustified_source).
-  assert (Hs : exists c, In c (cks s) /\ c_id c = 4 /\ is_jf (c_st c) = true /\ has_evidence 4 c = false).
-  { vm_compute. eexists. split; [right; left; reflexivity|]. repeat split. }
-  destruct Hs as (c & Hc & Hid & Hj & He).
-  apply (no_evidence 4 0 s c Hc); auto. rewrite Hid. discriminate.
+  apply bad_ck_refutes. vm_compute. reflexivity.
 Qed.
 
 (* the repaired code on the same history: nothing is justified *)
